@@ -1,6 +1,10 @@
 package main
 
 import (
+	"fmt"
+	"go/types"
+	"strings"
+
 	"golang.org/x/tools/go/ssa"
 )
 
@@ -11,11 +15,205 @@ type BlockSpec struct {
 
 func (b *BlockSpec) isEnd(from, to *ssa.BasicBlock) bool { return b.endEdge != nil && b.endEdge(from, to) }
 
-func (v *Verifier) libSpecCall(x *Exec, env *Env, e *SCall) (Value, bool) { return nil, false }
-
-func (x *Exec) callRecFunc(env *Env, sf *SpecFunc, e *SCall) Value {
-	env.fail("recursive spec functions are not implemented yet")
-	return nil
+// libSpecCall: a spec expression may call a library function whose assumed
+// contract is marked "opt functional" (its result is a function of its scalar
+// arguments); the call denotes that function.
+func (v *Verifier) libSpecCall(x *Exec, env *Env, e *SCall) (Value, bool) {
+	key := v.resolveLibName(e.Fun)
+	c := v.cs.Contracts[key]
+	if c == nil || c.Opts["functional"] == "" {
+		return nil, false
+	}
+	fn := v.funcs[key]
+	if fn == nil {
+		env.fail("library function %s is not loaded", key)
+	}
+	var args []*Term
+	for i := range e.Args {
+		a := x.compileTV(env, e.Args[i])
+		want := x.ti.SortOf(fn.Signature.Params().At(i).Type())
+		if a.T.Sort != want {
+			env.fail("argument %d of %s has sort %s, want %s", i, e.Fun, a.T.Sort, want)
+		}
+		args = append(args, a.T)
+	}
+	return x.functionalApp(key, c, fn, args), true
 }
 
-func (v *Verifier) recFuncDecls(x *Exec) []string { return nil }
+func (v *Verifier) resolveLibName(name string) string {
+	if _, ok := v.cs.Contracts[name]; ok {
+		return name
+	}
+	i := strings.Index(name, ".")
+	if i < 0 {
+		return name
+	}
+	pn, fnm := name[:i], name[i+1:]
+	for k := range v.cs.Contracts {
+		j := strings.LastIndex(k, ".")
+		if j < 0 || k[j+1:] != fnm {
+			continue
+		}
+		pkg := k[:j]
+		if pkg == pn || strings.HasSuffix(pkg, "/"+pn) {
+			return k
+		}
+	}
+	return name
+}
+
+// functionalApp applies the uninterpreted function standing for a functional
+// library routine and (once) asserts its assumed contract as universally
+// quantified axioms.
+func (x *Exec) functionalApp(key string, c *Contract, fn *ssa.Function, args []*Term) Value {
+	sig := fn.Signature
+	if sig.Results().Len() != 1 {
+		unsup("functional spec %s must have exactly one result", key)
+	}
+	rt := sig.Results().At(0).Type()
+	fname := "f_" + sanitize(key)
+	if !x.declared[fname] {
+		var ps []string
+		for i := 0; i < sig.Params().Len(); i++ {
+			ps = append(ps, string(x.ti.SortOf(sig.Params().At(i).Type())))
+		}
+		x.declareFun(fname, fmt.Sprintf("(declare-fun %s (%s) %s)", fname, strings.Join(ps, " "), x.ti.SortOf(rt)))
+		// axioms: forall params. typing(params) => ensures[result := f(params)]
+		var bound []*Term
+		var guards []*Term
+		vars := map[string]Value{}
+		for i := 0; i < sig.Params().Len(); i++ {
+			pt := sig.Params().At(i).Type()
+			x.counter++
+			b := Atom(fmt.Sprintf("q!%d", x.counter), x.ti.SortOf(pt))
+			bound = append(bound, b)
+			guards = append(guards, x.ti.WF(b, pt, nil)...)
+			name := fmt.Sprintf("_p%d", i)
+			if i < len(c.Params) {
+				name = c.Params[i]
+			}
+			vars[name] = TV{b, pt}
+		}
+		app := App(fname, x.ti.SortOf(rt), bound...)
+		if len(bound) == 0 {
+			app = Atom(fname, x.ti.SortOf(rt))
+		}
+		env := &Env{x: x, vars: vars, heap: map[string]*Term{}, st: &State{heap: map[string]*Term{}}}
+		if len(c.Results) > 0 && c.Results[0] != "" {
+			vars[c.Results[0]] = TV{app, rt}
+		}
+		vars["result"] = TV{app, rt}
+		body := []*Term{And(x.ti.WF(app, rt, nil)...)}
+		for _, e := range c.Ensures {
+			body = append(body, x.compileBool(env, e.Expr, e))
+		}
+		ax := Implies(And(guards...), And(body...))
+		if len(bound) > 0 {
+			x.axioms = append(x.axioms, &Term{Op: "forall", Sort: SBool, Bound: bound, Args: []*Term{ax}, Pats: []*Term{app}})
+		} else {
+			x.axioms = append(x.axioms, ax)
+		}
+		x.assumeNote("trusted contract: " + key)
+	}
+	if len(args) == 0 {
+		return TV{Atom(fname, x.ti.SortOf(rt)), rt}
+	}
+	return TV{App(fname, x.ti.SortOf(rt), args...), rt}
+}
+
+// Recursive spec functions become define-fun-rec.  A slice parameter is passed
+// as (contents array, offset, length); inside the body it is a marker slice
+// whose reads resolve to that array.
+type recFuncInfo struct {
+	decl   string
+	sort   Sort
+	rtype  types.Type
+	ptypes []types.Type
+}
+
+func (x *Exec) recFunc(env *Env, sf *SpecFunc) *recFuncInfo {
+	if x.recFuncs == nil {
+		x.recFuncs = map[string]*recFuncInfo{}
+	}
+	if ri, ok := x.recFuncs[sf.Name]; ok {
+		return ri
+	}
+	ri := &recFuncInfo{}
+	x.recFuncs[sf.Name] = ri
+	x.recOrder = append(x.recOrder, sf.Name)
+	tenv := &Env{x: x, pkg: env.pkg}
+	ri.rtype = tenv.resolveType(sf.Result)
+	ri.sort = x.ti.SortOf(ri.rtype)
+	benv := &Env{x: x, heap: map[string]*Term{}, st: &State{heap: map[string]*Term{}}, bound: map[string]TV{}, pkg: env.pkg}
+	var params []string
+	for i, p := range sf.Params {
+		pt := tenv.resolveType(p.Type)
+		ri.ptypes = append(ri.ptypes, pt)
+		if sl, ok := pt.Underlying().(*types.Slice); ok {
+			es := x.ti.SortOf(sl.Elem())
+			arr := Atom("arr_"+p.Name, ArraySort(SInt, es))
+			off := Atom("off_"+p.Name, SInt)
+			ln := Atom("len_"+p.Name, SInt)
+			params = append(params, fmt.Sprintf("(%s %s) (%s Int) (%s Int)", arr.Op, arr.Sort, off.Op, ln.Op))
+			marker := IntLit(int64(-(i + 1)))
+			key := x.ti.HeapKey(sl.Elem())
+			h, ok := benv.heap[key]
+			if !ok {
+				h = Atom("recheap_"+key, x.ti.HeapSort(sl.Elem()))
+			}
+			benv.heap[key] = Store(h, marker, arr)
+			benv.st.heap[key] = benv.heap[key]
+			benv.bound[p.Name] = TV{MkSlice(marker, off, ln, ln), pt}
+		} else {
+			a := Atom("a_"+p.Name, x.ti.SortOf(pt))
+			params = append(params, fmt.Sprintf("(%s %s)", a.Op, a.Sort))
+			benv.bound[p.Name] = TV{a, pt}
+		}
+	}
+	body := x.compileTV(benv, sf.Body)
+	if body.T.Sort != ri.sort {
+		env.fail("recursive spec function %s: body has sort %s, declared %s", sf.Name, body.T.Sort, ri.sort)
+	}
+	ri.decl = fmt.Sprintf("(define-fun-rec %s (%s) %s %s)", sf.Name, strings.Join(params, " "), ri.sort, body.T)
+	return ri
+}
+
+func (x *Exec) callRecFunc(env *Env, sf *SpecFunc, e *SCall) Value {
+	ri := x.recFunc(env, sf)
+	var args []*Term
+	for i := range sf.Params {
+		a := x.compileTV(env, e.Args[i])
+		if sl, ok := ri.ptypes[i].Underlying().(*types.Slice); ok {
+			if a.T.Sort != SSlice {
+				env.fail("argument %d of %s must be a slice", i, sf.Name)
+			}
+			key := x.ti.HeapKey(sl.Elem())
+			h, ok := env.heap[key]
+			if !ok {
+				_, h = x.heapTerm(env.st, sl.Elem())
+				if env.inOld {
+					if oh, ok := env.old.heap[key]; ok {
+						h = oh
+					}
+				}
+			}
+			args = append(args, Select(h, Sel("s-ref", a.T)), Sel("s-off", a.T), Sel("s-len", a.T))
+		} else {
+			if a.T.Sort != x.ti.SortOf(ri.ptypes[i]) {
+				env.fail("argument %d of %s has sort %s", i, sf.Name, a.T.Sort)
+			}
+			args = append(args, a.T)
+		}
+	}
+	return TV{App(sf.Name, ri.sort, args...), ri.rtype}
+}
+
+func (v *Verifier) recFuncDecls(x *Exec) []string {
+	var out []string
+	for _, n := range x.recOrder {
+		if ri := x.recFuncs[n]; ri != nil && ri.decl != "" {
+			out = append(out, ri.decl)
+		}
+	}
+	return out
+}
